@@ -198,13 +198,8 @@ def check(ctx):
     from ..writemodel import device_writes, key_presses
     device_writes(ctx, repo, "R5", kinds=True)
     key_presses(ctx, repo, "R5")
-    for cname, meth in (("GeckoAsyncSpa", "_connect"), ("GeckoSpa", "_on_config_received")):
-        fi = repo.method(cname, meth)
-        t = ast.unparse(fi.node)
-        ok = ("self.pack_type = self.pack_class.type" in t or "self.pack_type = self.new_pack_class.type" in t) and ".config_version" in t and ".log_version" in t
-        ok = ok and ("self.config_version = config_file_handler.config_version" in t or "self.config_version = handler.config_version" in t)
-        ok = ok and ("self.log_version = config_file_handler.log_version" in t or "self.log_version = handler.log_version" in t)
-        ctx.ob("R5", f"{cname}.{meth}::pack-identity-from-connection", ok, f"{cname}.{meth}: pack_type/config_version/log_version are not taken from the connected pack's FILES reply", fi.loc)
+    from ..modlookup import pack_identity
+    pack_identity(ctx, repo, "R5")
     # the structure delegates unchanged (path rule shared with C02.R8)
     from ..pathrules import pass_through
     for cname in ("GeckoAsyncStructure", "GeckoStructure"):
@@ -321,6 +316,21 @@ def check(ctx):
     ctx.rule("R12", "the second command's acknowledgement is its own: acknowledgements of pack commands are byte-identical datagrams (no sequence number), so the receive queue must tell a datagram from an EQUAL one that follows it - a mark left on a consumed acknowledgement must not hold for the next, equal one, or the discard consumer throws the second command's acknowledgement away and the command is sent again (a key press then toggles twice) (C07.R3's queue model borrowed)")
     from .c07 import queue_model as _qm13
     _qm13(ctx.borrowed("R12", "C07", key_prefix="AsyncPeekableQueue::mark"), repo, "R3")
+    ctx.rule("R13", "a mode name means what the table says: set_mode(name) is sent as the POSITION of that name in the demand item's label list, and the echo is decoded with the same list - so the list in force must be the published one. On the facades built for the richest pair of every platform with every offered device wired (single-speed pumps included: a high-speed output without its low-speed twin), no label list differs from its table's after construction and after every member has been read - a mode list trimmed IN PLACE (the pump's `modes` IS the item's list) makes 'HI' go out as 1 = LO while the client reads back 'HI' (C18.R10's model borrowed on the `devices` wiring)")
+    from ..buildmodel import labels_after_reads as _lar13
+    from ..packs import tables as _tables13
+    _T13 = _tables13(repo)
+    n13_ = 0
+    for (plat_, cs_, ls_, fcls_), (r_, extra_) in sorted(_lar13(repo, _T13, valuation="devices").items()):
+        if r_ is not None or extra_ is None:
+            continue
+        changed_, nw_ = extra_
+        n13_ += 1
+        ctx.ob("R13", f"{fcls_}::{plat_}::labels-as-published", not changed_,
+               f"{fcls_} built on ({cs_}, {ls_}) with every offered device wired: {len(changed_)} item(s) carry other labels than their table published, e.g. "
+               + "; ".join(f"{k}: {list(b)} -> {a}" for k, b, a in changed_[:2]) + " - a mode name is sent as its position in this list: the spa is told another mode than the one asked for, and the echo reads back as the one asked for",
+               repo.method(fcls_, "all_automation_devices").loc, sample={"rule": "R13", "facade": fcls_, "platform": plat_, "items_watched": nw_} if plat_.startswith("inyt") else None)
+    ctx.floor("R13", "facades built with every device wired", n13_, 10)
     ctx.rule("R10", "read-back after the echo: what the facade's sensors present is what the items decode from the block as it is now, also after a unit change that leaves the temperature word untouched (C14.R9 borrowed)")
     from .c14 import presented_value_follows_the_block
     presented_value_follows_the_block(ctx.borrowed("R10", "C14"), repo, "R9")
